@@ -367,8 +367,12 @@ DamageViol(r, c) ==
                         ELSE never))
                      \cup (IF partial THEN {<<"C12", "batch of an append cut short by a crash behind damaged frames recovered with a hole or a missing tail">>} ELSE {})
                 ELSE {})
+               \* an order-preserving renumbering of the WAL files (20-digit numbers below, across and above 10^19,
+               \* near the top of u64; with gaps) leaves the meaning of the directory unchanged
+          \cup (IF r.cls = "renumber" THEN Tag("C17", {"after an order-preserving renumbering of the WAL files: " \o m : m \in StateMismatch(r.st, c.qm, c)}) ELSE {})
           \cup (IF single THEN Tag("C09", LostViol(x, c, r.hit)) ELSE {})
           \cup (IF r.cls \in {"payload", "crc", "hdr"} THEN Tag("C12", BatchViol(x, c.batches)) ELSE {})
+        ELSE IF r.cls = "renumber" THEN {<<"C17", "a directory whose WAL files were renumbered in an order-preserving way does not open: " \o r.out>>}
         ELSE IF single THEN {<<"C09", "open failed after single-frame payload/CRC damage: " \o r.out>>}
         ELSE {})
 
